@@ -404,9 +404,22 @@ QuiescentComplete == Quiescent => Len(applied) = nextID /\ bret = aret
 \* (not demanded: an event whose acknowledgement was lost stays in the queue until a later acknowledgement
 \* arrives; ack(id) then removes everything up to id, so the queue does not grow with it)
 
-Props == <<"NextReadValid", "NoGapNoDup", "QuiescentView", "QuiescentComplete">>
+\* convergence needs progress: in a state that is not quiescent one of the two nodes can do something by itself
+\* (everything they do consumes what is in flight or queued, so together with the Quiescent* clauses this is the
+\* safety form of "once breaks stop, the view converges")
+CanMove == \/ cst = "up" /\ nr >= 0 /\ ~qclosed                       \* Fetch
+           \/ cst = "up" /\ s2c # <<>>                                 \* CliAck
+           \/ cst = "up" /\ link = "down" /\ s2c = <<>>                \* CliDetect
+           \/ c2s # <<>> /\ ~pend.on /\ sess.on                        \* SrvRecv
+           \/ pend.on \/ zomb.on                                       \* SrvNext
+           \/ ~peerOn \/ ~bpeer                                        \* NodeJoinA / NodeJoinB
+           \/ peerOn /\ cst = "none" /\ bpeer /\ ~(pend.on /\ zomb.on)  \* Hello("ok")
+NoStuck == Quiescent \/ CanMove
+
+Props == <<"NextReadValid", "NoGapNoDup", "QuiescentView", "QuiescentComplete", "NoStuck">>
 Holds(n) == CASE n = "NextReadValid" -> NextReadValid [] n = "NoGapNoDup" -> NoGapNoDup
               [] n = "QuiescentView" -> QuiescentView [] n = "QuiescentComplete" -> QuiescentComplete
+              [] n = "NoStuck" -> NoStuck
 Bad == SelectSeq(Props, LAMBDA n : ~Holds(n))
 
 \* the registered design-level check: the properties hold in every state whose session epoch is free of the
